@@ -265,6 +265,167 @@ theorem C18_question_asked_iff (c : Cache) (h : Hist) (now : Int) (i : Info) (qu
     · exact Or.inl hadd
     · exact Or.inr (Or.inl hadd)
 
+/-! ## "otherwise it asks": the obligation to transmit -/
+
+/-- what is known of a state reached by a run that began with `start` at `t0` -/
+theorem C18_reach (name : String) (timeout : Int) (forced : Nat) (h0 : 0 ≤ timeout)
+    (t0 : Int) (c : Cache) (h : Hist) (d : Int) (rest : List Block) (s : Req) (outs : List (Block × Out))
+    (hrun : run lower (Req.init lower name timeout forced) (.start t0 c h d :: rest) = some (s, outs)) :
+    Inv t0 s ∧ WakeInv s ∧ s.forced = forced ∧ s.timeout = timeout := by
+  rcases run_idle_cases lower _ rfl _ s outs hrun with ⟨hb, -⟩ | ⟨t0', c', h', d', rest', s1, o1, outs', hb, hs1, hr1, -⟩
+  · exact absurd hb (by simp)
+  · simp only [List.cons.injEq, Block.start.injEq] at hb
+    obtain ⟨⟨rfl, rfl, rfl, rfl⟩, rfl⟩ := hb
+    obtain ⟨i1, i2, i3, -⟩ := start_inv lower _ t0 c h d s1 o1 h0 hs1
+    have iw : WakeInv s1 := step_wake lower _ _ s1 o1 (by intro w k hw; simp [Req.init] at hw) hs1
+    have hall := run_all lower (P := fun s => Inv t0 s ∧ WakeInv s ∧ s.forced = forced ∧ s.timeout = timeout) (Q := fun _ _ => True)
+      (fun s b s2 o hp hs => by
+        obtain ⟨j1, j2, j3, -⟩ := step_inv lower t0 s b s2 o hp.1 hs
+        exact ⟨⟨j1, step_wake lower s b s2 o hp.2.1 hs, j3.trans hp.2.2.1, j2.trans hp.2.2.2⟩, trivial⟩) rest s1 s outs' ⟨i1, iw, i3, i2⟩ hr1
+    exact hall.1
+
+/-- **Otherwise it asks — first query.** If loading from the cache did not complete the info (by
+`C18_cachefirst` this means the cache did not suffice) and the timeout is positive, the `start` block
+*does* generate the query `_generate_request_query` builds with the forced type — QU (1) when none is
+forced — and transmits it unless it has no question; a QU query always has one, so an unforced (or
+forced-QU) lookup always transmits in its first block. -/
+theorem C18_asks_first (name : String) (timeout : Int) (forced : Nat) (htm : 0 < timeout)
+    (t0 : Int) (c : Cache) (h : Hist) (d : Int) (s' : Req) (o : Out)
+    (hs : step lower (Req.init lower name timeout forced) (.start t0 c h d) = some (s', o))
+    (hload : (loadFromCache lower c (Info.fresh lower name) t0).2 = false) :
+    QueryOf lower (if forced = 0 then 1 else forced) (.start t0 c h d) o ∧
+    ((if forced = 0 then 1 else forced) = 1 → o.sent ≠ none) := by
+  have hask := step_ask_first lower _ t0 c h d s' o hs
+  have hasked : o.asked = some (if forced = 0 then 1 else forced) := by
+    simp only [step] at hs
+    split at hs
+    · exact absurd hs (by simp)
+    · rw [if_neg (by simp only [Req.init]; rw [hload]; simp)] at hs
+      simp only [Option.some.injEq] at hs
+      have := iter_asks lower ((Req.init lower name timeout forced).armed (loadFromCache lower c (Info.fresh lower name) t0).1 t0) t0 c h d
+        (by simp only [Req.armed]; rw [← loadFromCache_snd]; exact hload)
+        (by simp only [Req.armed, Req.init, GenFacts.Lookup.deadline_of_eq]; omega) (by simp [Req.armed])
+      simp only [Req.init] at hs
+      simp only [Req.init] at this
+      rw [hs] at this
+      simp only [Req.armed, quCode, qmCode, GenFacts.Lookup.this_question_type_first] at this
+      exact this
+  have hq : QueryOf lower (if forced = 0 then 1 else forced) (.start t0 c h d) o := by
+    rcases hask with ⟨hn, -⟩ | hq
+    · rw [hasked] at hn; exact absurd hn (by simp)
+    · exact hq
+  refine ⟨hq, ?_⟩
+  intro ht
+  rw [ht] at hq
+  rcases hq.2 with ⟨-, hnil⟩ | ⟨hsent, -⟩
+  · have := genQuery_qu_a lower (Block.start t0 c h d).cache (Block.start t0 c h d).hist (Block.start t0 c h d).now o.info
+    have hq1 : ((1 : Nat) == quCode) = true := rfl
+    rw [hq1] at hnil
+    rw [hnil] at this
+    exact absurd this (by simp)
+  · rw [hsent]; simp
+
+/-- **Otherwise it asks — later queries.** In a state `s` reached by any run: a `resume` block taken
+when the next query is due (`s.next ≤ now`: in particular when the task is resumed by its own timer,
+`s.phase = waiting now _`, since the wake-up time is `min(next_, last)`), before the deadline, the info
+object still holding no address, *does* generate the QM query and transmits it unless every question
+of it is omitted (held or suppressed, `C18_question_asked_iff`). -/
+theorem C18_asks_later (name : String) (timeout : Int) (forced : Nat) (h0 : 0 ≤ timeout)
+    (t0 : Int) (c0 : Cache) (hh0 : Hist) (d0 : Int) (rest : List Block) (s : Req) (outs : List (Block × Out))
+    (hrun : run lower (Req.init lower name timeout forced) (.start t0 c0 hh0 d0 :: rest) = some (s, outs))
+    (now : Int) (c : Cache) (h : Hist) (d : Int) (s' : Req) (o : Out)
+    (hs : step lower s (.resume now c h d) = some (s', o))
+    (hinc : o.info.v4 = [] ∧ o.info.v6 = []) (hnl : now < t0 + timeout)
+    (hdue : s.next ≤ now ∨ ∃ k, s.phase = .waiting now k) :
+    QueryOf lower 2 (.resume now c h d) o := by
+  obtain ⟨hI, hW, -, htmo⟩ := C18_reach lower name timeout forced h0 t0 c0 hh0 d0 rest s outs hrun
+  have hask := step_ask_later lower t0 s _ s' o hI hs
+  simp only [step] at hs
+  split at hs
+  · rename_i w woken hph
+    obtain ⟨hlast, -, -, -, hfirst⟩ := hI.2 w woken hph
+    split at hs
+    · simp only [Option.some.injEq] at hs
+      have hi := iter_info lower s now c h d
+      rw [hs] at hi
+      have hnl' : now < s.last := by rw [hlast, htmo]; exact hnl
+      have hdue' : s.next ≤ now := by
+        rcases hdue with hd | ⟨k, hk⟩
+        · exact hd
+        · have := hW now k hk
+          omega
+      have hcomp : s.info.complete = false := by
+        rw [← hi.2]
+        cases hc : o.info.complete with
+        | false => rfl
+        | true =>
+          rw [Info.complete, GenFacts.Lookup.is_complete_iff] at hc
+          simp [hinc.1, hinc.2] at hc
+      have := iter_asks lower s now c h d hcomp hnl' hdue'
+      rw [hs] at this
+      rcases hask with ⟨hn, -⟩ | hq
+      · rw [this] at hn; exact absurd hn (by simp)
+      · simpa using hq
+    · exact absurd hs (by simp)
+  · exact absurd hs (by simp)
+
+/-! ## what success implies -/
+
+/-- **Success ⇒ provenance** (the headline form of "never from expired data").  When a lookup started
+on a fresh info object returns `true`: its host, port, priority and weight *are* those of an SRV record
+of the instance that was unexpired when read (the "still the constructor default" case of `Prov` is
+excluded); every address is that of an address record of that host, unexpired when read; and the TXT is
+that of a TXT record of the instance, unexpired when read, **or still the constructor's empty value** —
+named reading: `_is_complete` only tests `self.text is not None`, `text` is `b''` from `__init__` on, so a
+lookup succeeds as soon as an address is known, whether or not a TXT record was ever read (the model's
+`Info.complete` passes `text_set = true` for that reason; an empty text cannot be told from a received empty TXT). -/
+theorem C18_success_prov (name : String) (timeout : Int) (forced : Nat) (bs : List Block) (s' : Req) (outs : List (Block × Out))
+    (hrun : run lower (Req.init lower name timeout forced) bs = some (s', outs))
+    (b : Block) (o : Out) (hb : (b, o) ∈ outs) (hr : o.ret = some true) :
+    (∃ r t, (∃ b' ∈ bs, b'.now = t ∧ r ∈ b'.reads) ∧ r.isExpired t = false ∧ SrvFrom lower o.info r) ∧
+    (o.info.v4 ≠ [] ∨ o.info.v6 ≠ []) ∧
+    (∀ a ∈ o.info.v4 ++ o.info.v6, ∃ r t sc k, (∃ b' ∈ bs, b'.now = t ∧ r ∈ b'.reads) ∧ r.isExpired t = false ∧
+        r.rdata = .addr a sc ∧ o.info.serverKey = some k ∧ (lower r.name = k ∨ lower r.name = lower k)) ∧
+    (o.info.text = [] ∨ ∃ r t, (∃ b' ∈ bs, b'.now = t ∧ r ∈ b'.reads) ∧ r.isExpired t = false ∧
+        lower r.name = o.info.key ∧ r.rdata = .txt o.info.text) := by
+  have hp := (C18_fresh lower name timeout forced bs s' outs hrun).2 (b, o) hb
+  have haddr := ((C18_iff lower _ bs s' outs hrun b o true hb hr).1).mp rfl
+  refine ⟨?_, haddr, hp.addr, hp.txt⟩
+  rcases hp.srv with ⟨-, hk, -⟩ | hsrv
+  · exfalso
+    have : ∃ a, a ∈ o.info.v4 ++ o.info.v6 := by
+      rcases haddr with h4 | h6
+      · obtain ⟨a, ha⟩ := List.exists_mem_of_ne_nil _ h4
+        exact ⟨a, by simp [ha]⟩
+      · obtain ⟨a, ha⟩ := List.exists_mem_of_ne_nil _ h6
+        exact ⟨a, by simp [ha]⟩
+    obtain ⟨a, ha⟩ := this
+    obtain ⟨_, _, _, k, -, -, -, hk', -⟩ := hp.addr a ha
+    rw [hk] at hk'
+    exact absurd hk' (by simp)
+  · exact hsrv
+
+/-- **All of them when loaded from the cache — the SRV-triggered reload.** The other place addresses
+are loaded from the cache is the `DNSService` branch of `_process_record_threadsafe` when the server key
+changes.  From *any* state: after an `update` block that changed the info's server key, every well-formed
+A/AAAA record (class IN) of the new host that is in that block's cache and unexpired has its address in
+the info object (addresses delivered later in the same record list are added on top). -/
+theorem C18_reload_all (s : Req) (now : Int) (recs : List Rec) (c : Cache) (s' : Req) (o : Out)
+    (hs : step lower s (.update now recs c) = some (s', o)) (hchg : o.info.serverKey ≠ s.info.serverKey) :
+    ∀ k, o.info.serverKey = some k → ∀ x ∈ c, (x.type = 1 ∨ x.type = 28) → x.class_ = 1 → lower x.name = lower k →
+      x.isExpired now = false → ∀ a, addrObj x = some a → a ∈ o.info.v4 ++ o.info.v6 := by
+  simp only [step] at hs
+  split at hs
+  · split at hs
+    · simp only [Option.some.injEq, Prod.mk.injEq] at hs
+      obtain ⟨-, hs2⟩ := hs
+      subst hs2
+      rcases processAll_key_or_all lower c now recs s.info with hk | hall
+      · exact absurd hk hchg
+      · exact hall
+    · exact absurd hs (by simp)
+  · exact absurd hs (by simp)
+
 /-! ### the hypotheses are satisfiable: the former D14 witness -/
 
 /-- a valid SRV (→ `h.local.`, TTL 120 s), an SRV inserted later (→ `g.local.`, TTL 1 s) and an address of `h.local.`, all created at 0 -/
@@ -299,6 +460,14 @@ example : CacheSuffices id [exSrvLive, exSrvDead, exAddr] "i._x._tcp.local." 500
 /-- … and the (repaired) lookup answers from it at once, with the valid SRV's data, sending nothing -/
 example : (step id (Req.init id "i._x._tcp.local." 200 0) (.start 5000 [exSrvLive, exSrvDead, exAddr] [] 20)).map
     (fun p => (p.2.ret, p.2.sent.isSome, p.2.info.port, p.2.info.v4)) = some (some true, false, some 80, [[10, 0, 0, 1]]) := by decide
+
+/-- non-vacuity of `C18_asks_first` / `C18_asks_later`: an empty cache does not complete the info; the
+`start` block transmits the QU query (4 questions), and the timer-resumed block at +220 ms the QM query -/
+example : (loadFromCache id [] (Info.fresh id "i._x._tcp.local.") 1000).2 = false := by decide
+
+example : (run id (Req.init id "i._x._tcp.local." 3000 0) [.start 1000 [] [] 20, .resume 1220 [] [] 20]).map
+    (fun p => p.2.map (fun q => (q.2.asked, q.2.sent.map List.length))) =
+    some [(some 1, some 4), (some 2, some 4)] := by decide
 
 /-- non-vacuity of `C18_deadline` / `C18_iff` / `C18_qu_then_qm`: an empty cache, an SRV+A response at
 +100 ms wakes the task, which returns `true` at +100 ms -/
